@@ -286,6 +286,7 @@ class VolumeMesh(Mesh):
             else:
                 self._adjC2C = self.mesh.cell_faces.create_attribute("adjacent_cell", int, 1, default_value= config.NOT_AN_ID)
                 for iC, cell in enumerate(self.mesh.cells):
+                    if len(cell)!=4: continue # adjacency through faces is only defined for tetrahedra here
                     v0,v1,v2,v3 = cell
                     # face fi does not contain vertex vi
                     f0,f1,f2,f3 = self.face_id(v1,v3,v2), self.face_id(v0,v2,v3), self.face_id(v3,v1,v0), self.face_id(v0,v1,v2)
